@@ -128,6 +128,13 @@ def run(ctx, info):
         for pos, (text, root, tag) in positions('\x00').items():
             cases.append((text.replace(esc('\x00'), pe), root, ''))
             meta.append((w, pos, tag))
+    # an escaped marker character directly next to a bare one of the same kind: two unescaped ones would be markup, one is
+    # plain text, so the pair is the literal text XX in every position (and inside every kind of inline)
+    for X in '*/_{}':
+        for w, pe in (('a' + X + X + 'b', 'a\\' + X + X + 'b'), ('a' + X + X + 'b', 'a' + X + '\\' + X + 'b')):
+            for pos, (text, root, tag) in positions('\x00').items():
+                cases.append((text.replace(esc('\x00'), pe), root, ''))
+                meta.append((w, pos, tag))
     seps = []
     for _ in range(ctx.budget(3, 30)):
         seps += separator_cases(rng)
